@@ -107,6 +107,11 @@ def compare_behaviour(ctx, world, rot, b, known=None):
 
 def run(ctx):
     rnd = random.Random(ctx.seed)
+    # which decoder serves a record is a function of the fed object's OWN code table (spec/Dispatch_MC.tla): design
+    # model-checked with its misplaced-memo variants, behaviours replayed on real parser and dict objects
+    from . import dispatch
+    dispatch.model_check(ctx, ['memoByTableId'])
+    dispatch.run(ctx)
     # ---- (1) M |= P
     if ctx.quick:
         ctx.expect_ok(run_tlc('Pairing_MC', MC_CFG % (4, '1, 2', '1, 3, 4, 5', 'ok'), ctx.workdir, name='core_d4',
